@@ -310,13 +310,41 @@ class Model:
         """RFC 9176 5.3.1: lt replaces (else the previous one is kept), base replaces / an explicit one is kept /
         otherwise the source address of the update, extra attributes override per key; the links stay (POST)
         or are replaced (PUT, an extension)."""
+        old_base = reg.base
         self._apply_params(reg, list(query), src, lenient)
         reg.t = now
         reg.writer = src
-        reg.alts = []
-        reg.unresolved = False
+        if any(k == "lt" for (k, _v) in query):
+            reg.alts = []
+        else:
+            # "the previous lt is retained": if a rejected request had changed it unseen, it is that one
+            kept = []
+            for _t, lt, why in reg.alts:
+                if lt != reg.lt and not any(a[1] == lt and a[2] == why for a in kept):
+                    kept.append((now, lt, why))
+            reg.alts = kept
+        if reg.base != old_base:
+            reg.unresolved = False
         if links is not None:
             reg.links = list(links)
+
+    def note_rejected(self, reg, query, now, why):
+        """A request addressed to `reg` was answered 4.xx. lt is not visible in any lookup (RFC 9176 6.3), so
+        whether the request nevertheless set / restarted the lifetime can only be seen at a later boundary:
+        remember the lifetimes it would have produced."""
+        lts = _values(list(query), "lt")
+        if len(lts) == 1 and _is_uint(lts[0]):
+            cand = [int(lts[0])]
+        else:
+            cand = [reg.lt] + [lt for (_t, lt, _w) in reg.alts]
+        for lt in dict.fromkeys(cand):
+            reg.alts.append((now, lt, why))
+
+    def prune_refuted(self, now):
+        """Called when every live registration was just seen listed: a remembered lifetime that would have
+        ended by now is refuted."""
+        for r in self.live.values():
+            r.alts = [(t, lt, w) for (t, lt, w) in r.alts if t + lt + self.grace > now]
 
     def _apply_params(self, r, pairs, src, lenient):
         lts = _values(pairs, "lt")
